@@ -143,6 +143,8 @@ C03_OK(cfg, in, o) ==
    /\ (o.info.res = "accept") => o.res = "accept"
 
 C09_OK(cfg, in, o) == o.res \in {"accept", "reject"} /\ o.info.res \in {"accept", "reject"}
+\* C01 (fragment): what the summary hands out is the first assertion's, never a blend with a later one
+C01_OK(cfg, in, o) == (o.info.res = "accept") => o.vals_first
 \* C04: flags never overstate, and the summary's flag mirrors the Response's
 C04_OK(cfg, in, o) ==
    /\ (o.res = "accept" /\ o.rflag) => (in.sigmode = "root" /\ ~cfg.skip)
